@@ -185,6 +185,27 @@ class Sim:
         self.result = None
         self.error = None
 
+    def block_loop(self, at, duration):
+        """Fault: the event loop is blocked (a long synchronous callback, a GC or VM pause)
+        from virtual time ``at`` for ``duration`` seconds.  The world goes on - peers send,
+        segments are delivered into socket buffers - but the loop processes nothing; when it
+        comes back it finds the I/O that piled up AND the timers that fell due in one
+        iteration."""
+        net = self.net
+
+        def blocker():
+            target = net.now + duration
+            net.stats["loop_blocked"] += 1
+            net.log("loopblock", "loop")
+            while True:
+                tn = net.next_time()
+                if tn is None or tn > target:
+                    break
+                net.advance(tn)
+                net.run_due()
+            net.advance(target)
+        self.loop.call_at(at, blocker)
+
     def run(self, main, horizon=600.0, max_iterations=200000):
         """Run coroutine ``main`` (a coroutine object) to completion or until
         quiescence / horizon / iteration cap.  Returns the status string."""
